@@ -12,6 +12,12 @@ CLAIMED = {
         "Trusts the engine's CBOR reader (unit-tested against RFC 8949 Appendix A) and the library's PartialEq as the notion of equality; nesting depth and collection sizes are bounded (evidence states the bounds).",
         "DESIGN.md §5 C01",
     ),
+    "C02": (
+        "bounded-exhaustive short inputs + proptest-driven structure-aware mutation of valid encodings + grammar-generated adversarial CBOR + malformed text, with a no-panic / well-formed-reserialization oracle in crash-isolated shard processes",
+        "Generated-input search over every public parsing entry point (from_bytes / from_hex / from_json of ~140 types, bech32 / base58 / decimal parsers, the JSON schema helpers, key and FixedTransaction constructors): all inputs of length <= 2 exhaustively, millions of mutated valid encodings (tree edits and byte edits), schema-free adversarial CBOR nested to 256, mutated JSON / hex / bech32 / base58 text. Each call must return, and an accepted value must re-serialize without panic into well-formed CBOR (checked by the engine's own reader). Shards are child processes with a crash journal, so an abort is attributed to its input. Exploration is the right level: totality over all byte strings cannot be enumerated; thorough adds libFuzzer campaigns over the same case functions.",
+        "Inputs declaring a string longer than 2^32 bytes beyond the input are excluded and counted (known finding in cbor_event: allocation of the declared length aborts the process); nesting deeper than 256 is outside the explored domain; a hang would surface as a watchdog expiry (exit 2).",
+        "DESIGN.md §5 C02",
+    ),
     "C03": (
         "proptest-driven tape generation of typed values validated by an independent schema-directed Conway CDDL validator",
         "Generated-input search: bytes emitted for typed values of every type that has a schema rule (and, via sub-check builder_tx, every transaction the builder scenarios produce) are parsed by the engine's own CBOR reader and validated node by node against the engine's transcription of the Conway CDDL (keys, arities, tags, ranges, size bounds, shortest definite encoding with the two Plutus exceptions, tag 258 + distinct elements for sets). Rule coverage is reported. Exploration is the right level: conformance of an encoder to a grammar over an unbounded value space.",
